@@ -176,8 +176,8 @@ func (s *state) topLevel(changes []schema.Change) ([]schema.Change, error) {
 			}
 			s.append(&migrate.Change{
 				Source:  c,
-				Cmd:     s.Build("ALTER TYPE").Ident(e1.T).P("RENAME TO").Ident(e2.T).String(),
-				Reverse: s.Build("ALTER TYPE").Ident(e2.T).P("RENAME TO").Ident(e1.T).String(),
+				Cmd:     s.Build("ALTER TYPE").P(s.enumIdent(e1), "RENAME TO").Ident(e2.T).String(),
+				Reverse: s.Build("ALTER TYPE").P(s.enumIdent(e2), "RENAME TO").Ident(e1.T).String(),
 				Comment: fmt.Sprintf("rename an enum from %q to %q", e1.T, e2.T),
 			})
 		default:
